@@ -1,19 +1,25 @@
-(* C18 (round 2): FilePreferenceSaverThread as an explicit-schedule machine.
-   Two threads: M (the caller of SavePreferences / Synchronize) and S (the saver thread running the
-   SelectServer loop).  Shared: the executor's incoming callback list (SelectServer::Execute pushes
-   under m_incoming_mutex, the loop swaps the whole list out and runs it in order), and, for the
+(* C18: FilePreferenceSaverThread as an explicit-schedule machine, N callers.
+   Threads: M, one distinguished caller of SavePreferences / Synchronize; S, the saver thread running
+   the SelectServer loop; and the ENVIRONMENT: any number of other threads that may, at any point of
+   the schedule, call SavePreferences (CEnvSave m: a closure is appended to the executor's list) or
+   Synchronize (CEnvSync: their own marker closure, IForeign, is appended; it refers to THEIR stack
+   objects, never to M's).  When S reaches a foreign marker it locks / flags / signals / unlocks the
+   other caller's objects: seen from M and the directory this is "S makes no progress for a while,
+   then the closure is gone" - S not being scheduled, then one pop step.  Every caller is M in its
+   own instance of this machine, with all the others as its environment, so the theorem proved for
+   M holds for each of the N callers.
+   Shared: the executor's incoming callback list (SelectServer::Execute pushes under
+   m_incoming_mutex, the loop swaps the whole list out and runs it in order), and, for M's
    Synchronize in progress, its mutex, condition variable and flag (they live on Synchronize's
    stack: `alive` says whether that frame still exists).  A save is not one step: the saver makes
-   one system call of the save script per step, so every interleaving of further SavePreferences /
-   Synchronize calls of M with a save in progress is a schedule.  A schedule is a list of choices: let M
-   take its next atomic step, let S take its next atomic step, or wake M spuriously out of
-   pthread_cond_wait.  A step that is not enabled (blocked on the mutex, blocked in wait, nothing
-   to do) leaves the state unchanged.  `fixed = true` is Synchronize / CompleteSynchronization
-   with fixes/04 applied, `fixed = false` the code before it.  No proofs here. *)
+   one system call of the save script per step.  A schedule is a list of choices; a step that is
+   not enabled (blocked on the mutex, blocked in wait, nothing to do) leaves the state unchanged.
+   `fixed = true` is Synchronize / CompleteSynchronization with fixes/04 applied, `fixed = false`
+   the code before it.  No proofs here. *)
 From OlaBase Require Import Bytes.
 From C18 Require Import Model.
 
-Inductive item := ISave (m : pmap) | IMarker.          (* queued closures *)
+Inductive item := ISave (m : pmap) | IMarker | IForeign.   (* queued closures *)
 Inductive mop := MSave (m : pmap) | MSync.             (* what M calls: SavePreferences(m), Synchronize() *)
 Inductive mpc_t :=
 | MIdle        (* between calls *)
@@ -26,12 +32,12 @@ Inductive spc_t :=
 | SRun         (* SelectServer loop: swap the incoming list / run the next closure *)
 | SSaving (m : pmap) (rest : list sys)
                (* inside SavePreferencesToFile for the closure's copy m; rest = system calls still to
-                  make.  M can run between any two of them (e.g. issue further SavePreferences). *)
-| SMLocked     (* CompleteSynchronization: mutex->Lock() done *)
+                  make.  Any other thread can run between any two of them. *)
+| SMLocked     (* CompleteSynchronization (M's marker): mutex->Lock() done *)
 | SMSet        (* fixed: *complete = true done; old: mutex->Unlock() done.  next: Signal *)
 | SMSignalled. (* fixed only: Signal done, next: Unlock *)
 Inductive tid := TM | TS.
-Inductive choice := CMain | CSaver | CSpurious.
+Inductive choice := CMain | CSaver | CSpurious | CEnvSave (m : pmap) | CEnvSync.
 
 Record sst := mk {
   prog : list mop;
@@ -45,25 +51,30 @@ Record sst := mk {
   sdisk : fs;
   issued : list pmap;
   completed : list pmap;
-  synclog : list (list pmap * list pmap * fs);
+  marked : list pmap;
+  synclog : list (list pmap * list pmap * fs * list pmap);
   hazard : bool }.
 
-Definition set_prog (x : list mop) (s : sst) : sst := mk x (mpc s) (spc s) (queue s) (batch s) (mtx s) (done s) (alive s) (sdisk s) (issued s) (completed s) (synclog s) (hazard s).
-Definition set_mpc (x : mpc_t) (s : sst) : sst := mk (prog s) x (spc s) (queue s) (batch s) (mtx s) (done s) (alive s) (sdisk s) (issued s) (completed s) (synclog s) (hazard s).
-Definition set_spc (x : spc_t) (s : sst) : sst := mk (prog s) (mpc s) x (queue s) (batch s) (mtx s) (done s) (alive s) (sdisk s) (issued s) (completed s) (synclog s) (hazard s).
-Definition set_queue (x : list item) (s : sst) : sst := mk (prog s) (mpc s) (spc s) x (batch s) (mtx s) (done s) (alive s) (sdisk s) (issued s) (completed s) (synclog s) (hazard s).
-Definition set_batch (x : list item) (s : sst) : sst := mk (prog s) (mpc s) (spc s) (queue s) x (mtx s) (done s) (alive s) (sdisk s) (issued s) (completed s) (synclog s) (hazard s).
-Definition set_mtx (x : option tid) (s : sst) : sst := mk (prog s) (mpc s) (spc s) (queue s) (batch s) x (done s) (alive s) (sdisk s) (issued s) (completed s) (synclog s) (hazard s).
-Definition set_done (x : bool) (s : sst) : sst := mk (prog s) (mpc s) (spc s) (queue s) (batch s) (mtx s) x (alive s) (sdisk s) (issued s) (completed s) (synclog s) (hazard s).
-Definition set_alive (x : bool) (s : sst) : sst := mk (prog s) (mpc s) (spc s) (queue s) (batch s) (mtx s) (done s) x (sdisk s) (issued s) (completed s) (synclog s) (hazard s).
-Definition set_sdisk (x : fs) (s : sst) : sst := mk (prog s) (mpc s) (spc s) (queue s) (batch s) (mtx s) (done s) (alive s) x (issued s) (completed s) (synclog s) (hazard s).
-Definition set_issued (x : list pmap) (s : sst) : sst := mk (prog s) (mpc s) (spc s) (queue s) (batch s) (mtx s) (done s) (alive s) (sdisk s) x (completed s) (synclog s) (hazard s).
-Definition set_completed (x : list pmap) (s : sst) : sst := mk (prog s) (mpc s) (spc s) (queue s) (batch s) (mtx s) (done s) (alive s) (sdisk s) (issued s) x (synclog s) (hazard s).
-Definition set_synclog (x : list (list pmap * list pmap * fs)) (s : sst) : sst := mk (prog s) (mpc s) (spc s) (queue s) (batch s) (mtx s) (done s) (alive s) (sdisk s) (issued s) (completed s) x (hazard s).
-Definition set_hazard (x : bool) (s : sst) : sst := mk (prog s) (mpc s) (spc s) (queue s) (batch s) (mtx s) (done s) (alive s) (sdisk s) (issued s) (completed s) (synclog s) x.
+Definition set_prog (x : list mop) (s : sst) : sst := mk x (mpc s) (spc s) (queue s) (batch s) (mtx s) (done s) (alive s) (sdisk s) (issued s) (completed s) (marked s) (synclog s) (hazard s).
+Definition set_mpc (x : mpc_t) (s : sst) : sst := mk (prog s) x (spc s) (queue s) (batch s) (mtx s) (done s) (alive s) (sdisk s) (issued s) (completed s) (marked s) (synclog s) (hazard s).
+Definition set_spc (x : spc_t) (s : sst) : sst := mk (prog s) (mpc s) x (queue s) (batch s) (mtx s) (done s) (alive s) (sdisk s) (issued s) (completed s) (marked s) (synclog s) (hazard s).
+Definition set_queue (x : list item) (s : sst) : sst := mk (prog s) (mpc s) (spc s) x (batch s) (mtx s) (done s) (alive s) (sdisk s) (issued s) (completed s) (marked s) (synclog s) (hazard s).
+Definition set_batch (x : list item) (s : sst) : sst := mk (prog s) (mpc s) (spc s) (queue s) x (mtx s) (done s) (alive s) (sdisk s) (issued s) (completed s) (marked s) (synclog s) (hazard s).
+Definition set_mtx (x : option tid) (s : sst) : sst := mk (prog s) (mpc s) (spc s) (queue s) (batch s) x (done s) (alive s) (sdisk s) (issued s) (completed s) (marked s) (synclog s) (hazard s).
+Definition set_done (x : bool) (s : sst) : sst := mk (prog s) (mpc s) (spc s) (queue s) (batch s) (mtx s) x (alive s) (sdisk s) (issued s) (completed s) (marked s) (synclog s) (hazard s).
+Definition set_alive (x : bool) (s : sst) : sst := mk (prog s) (mpc s) (spc s) (queue s) (batch s) (mtx s) (done s) x (sdisk s) (issued s) (completed s) (marked s) (synclog s) (hazard s).
+Definition set_sdisk (x : fs) (s : sst) : sst := mk (prog s) (mpc s) (spc s) (queue s) (batch s) (mtx s) (done s) (alive s) x (issued s) (completed s) (marked s) (synclog s) (hazard s).
+Definition set_issued (x : list pmap) (s : sst) : sst := mk (prog s) (mpc s) (spc s) (queue s) (batch s) (mtx s) (done s) (alive s) (sdisk s) x (completed s) (marked s) (synclog s) (hazard s).
+Definition set_completed (x : list pmap) (s : sst) : sst := mk (prog s) (mpc s) (spc s) (queue s) (batch s) (mtx s) (done s) (alive s) (sdisk s) (issued s) x (marked s) (synclog s) (hazard s).
+Definition set_marked (x : list pmap) (s : sst) : sst := mk (prog s) (mpc s) (spc s) (queue s) (batch s) (mtx s) (done s) (alive s) (sdisk s) (issued s) (completed s) x (synclog s) (hazard s).
+Definition set_synclog (x : list (list pmap * list pmap * fs * list pmap)) (s : sst) : sst := mk (prog s) (mpc s) (spc s) (queue s) (batch s) (mtx s) (done s) (alive s) (sdisk s) (issued s) (completed s) (marked s) x (hazard s).
+Definition set_hazard (x : bool) (s : sst) : sst := mk (prog s) (mpc s) (spc s) (queue s) (batch s) (mtx s) (done s) (alive s) (sdisk s) (issued s) (completed s) (marked s) (synclog s) x.
 
 Definition init (p : list mop) (d : fs) : sst :=
-  mk p MIdle SRun [] [] None false false d [] [] [] false.
+  mk p MIdle SRun [] [] None false false d [] [] [] [] false.
+
+(* the save in progress, if any *)
+Definition cur (s : sst) : list pmap := match spc s with SSaving m _ => [m] | _ => [] end.
 
 (* M's next atomic step *)
 Definition main_step (fixed : bool) (s : sst) : sst :=
@@ -76,7 +87,8 @@ Definition main_step (fixed : bool) (s : sst) : sst :=
     | MSync :: r =>         (* Synchronize: new mutex / cond / flag on the stack; Lock() *)
       set_prog r (set_mpc MLocked (set_mtx (Some TM) (set_done false (set_alive true s))))
     end
-  | MLocked => set_mpc MPushed (set_queue (queue s ++ [IMarker]) s)
+  | MLocked =>              (* m_ss.Execute(marker).  ghost: every save queued so far, by anybody *)
+    set_mpc MPushed (set_queue (queue s ++ [IMarker]) (set_marked (issued s) s))
   | MPushed =>
     if fixed && done s then set_mpc MDoneSeen s      (* while (!complete) *)
     else set_mpc MWaiting (set_mtx None s)           (* pthread_cond_wait: release + block *)
@@ -88,7 +100,7 @@ Definition main_step (fixed : bool) (s : sst) : sst :=
     end
   | MDoneSeen =>            (* (fixed: Unlock;) return: the stack objects are destroyed *)
     set_mpc MIdle (set_alive false
-      (set_synclog (synclog s ++ [(issued s, completed s, sdisk s)])
+      (set_synclog (synclog s ++ [(marked s, completed s, sdisk s, cur s)])
          (if fixed then set_mtx None s else s)))
   end.
 
@@ -101,6 +113,7 @@ Definition saver_step (fixed : bool) (s : sst) : sst :=
     | [] => set_batch (queue s) (set_queue [] s)       (* callbacks_to_run.swap(m_incoming_callbacks) *)
     | ISave m :: r =>                                  (* the closure is taken off the list and started *)
       set_batch r (set_spc (SSaving m (save_script m)) s)
+    | IForeign :: r => set_batch r s                   (* another caller's marker: its objects, not M's *)
     | IMarker :: r =>                                  (* CompleteSynchronization: mutex->Lock() *)
       if alive s then
         match mtx s with
@@ -134,11 +147,18 @@ Definition saver_step (fixed : bool) (s : sst) : sst :=
 Definition spurious_step (s : sst) : sst :=
   match mpc s with MWaiting => set_mpc MWoken s | _ => s end.
 
+(* the other callers *)
+Definition env_save (m : pmap) (s : sst) : sst :=
+  set_queue (queue s ++ [ISave m]) (set_issued (issued s ++ [m]) s).
+Definition env_sync (s : sst) : sst := set_queue (queue s ++ [IForeign]) s.
+
 Definition step (fixed : bool) (s : sst) (c : choice) : sst :=
   if hazard s then s else
   match c with
   | CMain => main_step fixed s
   | CSaver => saver_step fixed s
   | CSpurious => spurious_step s
+  | CEnvSave m => env_save m s
+  | CEnvSync => env_sync s
   end.
 Definition run (fixed : bool) (sched : list choice) (s : sst) : sst := fold_left (step fixed) sched s.
